@@ -352,6 +352,24 @@ pub fn generate(thorough: bool) -> Vec<Dup> {
         });
     }
 
+    // ---- 5b. the same with a first token of 4 KiB .. 64 KiB (the first occurrence counts however long it is)
+    for len in [4096usize, 8192, 8193, 16_384, 65_000] {
+        let long_tok = "L".repeat(len);
+        let mut plan = e2e::base_plan(Carrier::Header);
+        plan.token = Some(long_tok.clone());
+        plan.signed.push("x-amz-security-token".into());
+        plan.post_headers.push(("X-Amz-Security-Token".to_string(), b"SHORT-SECOND-TOKEN".to_vec()));
+        let built = build(&plan);
+        out.push(Dup {
+            label: format!("x-amz-security-token: first of two is {} bytes long", len),
+            wire: WireReq::from_wire(&built.wire),
+            cfg: cfg.clone(),
+            expect_ok: true,
+            expect_ask: Some((e2e::ACCESS_KEY.into(), Some(long_tok))),
+            expect_both_carriers: false,
+        });
+    }
+
     // ---- 6/7. query carrier: the first value of each repeated X-Amz-* parameter counts
     let start_67 = out.len();
     let d8 = now.date8();
@@ -725,6 +743,42 @@ pub fn generate(thorough: bool) -> Vec<Dup> {
             }
         }
     }
+    // ---- every case with a repeated Authorization or date header again with the FIRST occurrence made very long in
+    //      a way that does not change its meaning (an unknown field appended; trailing blanks): which occurrence is
+    //      first does not depend on how long it is
+    {
+        let mut extra: Vec<Dup> = Vec::new();
+        for d in &out {
+            for (hname, pad_kind) in [("authorization", 0u8), ("x-amz-date", 1), ("date", 1)] {
+                let idxs: Vec<usize> = d.wire.headers.iter().enumerate().filter(|(_, h)| h.0.eq_ignore_ascii_case(hname)).map(|(i, _)| i).collect();
+                if idxs.len() < 2 {
+                    continue;
+                }
+                if pad_kind == 0 && !d.wire.headers[idxs[0]].1.starts_with(b"AWS4-HMAC-SHA256 ") {
+                    continue; // appending a field only makes sense to a SigV4 value
+                }
+                for len in [8193usize, 70_000] {
+                    let mut w = d.wire.clone();
+                    let v = &mut w.headers[idxs[0]].1;
+                    if pad_kind == 0 {
+                        v.extend_from_slice(b", x-pad=");
+                        v.extend(std::iter::repeat(b'p').take(len));
+                    } else {
+                        v.extend(std::iter::repeat(b' ').take(len));
+                    }
+                    extra.push(Dup {
+                        label: format!("{} [first {} header padded by {} bytes]", d.label, hname, len),
+                        wire: w,
+                        cfg: d.cfg.clone(),
+                        expect_ok: d.expect_ok,
+                        expect_ask: d.expect_ask.clone(),
+                        expect_both_carriers: d.expect_both_carriers,
+                    });
+                }
+            }
+        }
+        out.extend(extra);
+    }
     out
 }
 
@@ -791,7 +845,7 @@ pub fn run(ctx: &Ctx) -> Report {
     });
     Report {
         stats: st,
-        rule: "for each duplicable input — Authorization header (4 decoy kinds, with/without interleaved headers); Credential / SignedHeaders / Signature inside it (2 separators), the same with 0..9 unknown fields in front and 0..300 unknown fields between the two occurrences (field counts across 8, 16, 32, 64, 256), and differently-cased look-alikes of those names before/after the real ones (24 runs each); X-Amz-Date header (signed or not); X-Amz-Date vs Date in both orders; X-Amz-Security-Token header; query X-Amz-Algorithm / -Credential / -Date / -SignedHeaders / -Security-Token (adjacent or spread) and X-Amz-Signature, also with either occurrence's name spelled with escaped hyphens — 2 or 3 occurrences with differing values and the single valid value at every position; the request is signed as received (all values in the canonical form) with the valid occurrence's data, so it validates iff the documented rule selects that occurrence; each X-Amz-* parameter once in the URL and once in a folded form body (valid one in either place, body with fewer or more names than the URL); inputs of the carrier that is NOT in use present as decoys (X-Amz-* query parameters next to an Authorization header; date / token / credential headers next to query authentication); plus Authorization together with X-Amz-Algorithm (3 values) in the URL, in a folded body and as a complete second authentication; thorough adds all pairs of duplicated date x token. Oracle: generator's expectation (independent of the reference verifier, and cross-checked against it), error kind and provider identity. states = (stage, identity seen by provider)".into(),
+        rule: "for each duplicable input — Authorization header (4 decoy kinds, with/without interleaved headers); Credential / SignedHeaders / Signature inside it (2 separators), the same with 0..9 unknown fields in front and 0..300 unknown fields between the two occurrences (field counts across 8, 16, 32, 64, 256), and differently-cased look-alikes of those names before/after the real ones (24 runs each); X-Amz-Date header (signed or not); X-Amz-Date vs Date in both orders; X-Amz-Security-Token header (also with a first token of 4 .. 64 KiB); every case with a repeated Authorization / date header again with the first occurrence padded by 8193 / 70000 bytes that do not change its meaning; query X-Amz-Algorithm / -Credential / -Date / -SignedHeaders / -Security-Token (adjacent or spread) and X-Amz-Signature, also with either occurrence's name spelled with escaped hyphens — 2 or 3 occurrences with differing values and the single valid value at every position; the request is signed as received (all values in the canonical form) with the valid occurrence's data, so it validates iff the documented rule selects that occurrence; each X-Amz-* parameter once in the URL and once in a folded form body (valid one in either place, body with fewer or more names than the URL); inputs of the carrier that is NOT in use present as decoys (X-Amz-* query parameters next to an Authorization header; date / token / credential headers next to query authentication); plus Authorization together with X-Amz-Algorithm (3 values) in the URL, in a folded body and as a complete second authentication; thorough adds all pairs of duplicated date x token. Oracle: generator's expectation (independent of the reference verifier, and cross-checked against it), error kind and provider identity. states = (stage, identity seen by provider)".into(),
         bounds: json!({"cases": n, "occurrences": [2, 3]}),
         exhaustive: true,
         assumptions: vec![],
